@@ -61,6 +61,18 @@ def step (s : S) (op : List String) : S × String :=
         else ({ s with st := st' }, s!"ok {Driver.bytesToHex k} created={Driver.boolStr c}")
       | r => ({ s with st := st' }, resStr (fun _ => "ok") r)
     | _, _, _ => (s, "bad-op")
+  | ["parkey", kd, n, pw, _k] =>
+    -- k concurrent Key calls on the in-memory keystore: get-or-create is atomic, so the outcome is that of one call
+    match kindOf kd, Driver.hexToBytes n, Driver.hexToBytes pw with
+    | some .mem, some n, some pw =>
+      let fresh := ((annot an "k").bind Driver.hexToBytes).getD []
+      let (r, st') := svcKey ideal .mem s.st n pw fresh []
+      match r with
+      | .ok (k, c) =>
+        if c && k.length != 32 then (s, "inadmissible fresh-key")
+        else ({ s with st := st' }, s!"ok {Driver.bytesToHex k} created={if c then 1 else 0}")
+      | r => ({ s with st := st' }, resStr (fun _ => "ok") r)
+    | _, _, _ => (s, "bad-op")
   | ["exists", kd, n] =>
     match kindOf kd, Driver.hexToBytes n with
     | some .file, some n => (s, Driver.boolStr (fileExists s.st n))
